@@ -423,18 +423,35 @@ def impl(case):
         def _eval_is_real(self):
             return self.args[0].is_real
 
-    # baseline for the singularity repair: a fresh, unshared process-mate of every model template of the case, repaired
-    # before anything else happens (the later repairs must not depend on the history in between)
+    # baseline for the singularity repair: a fresh, unshared process-mate of every model that gets repaired, given the
+    # model's OWN conversions and repaired before anything else happens (a repair must not depend on what OTHER
+    # models and stores did in between)
     base = {}
     if case['kind'] != 'handler' and any(o[0] == 'sing' for o in case['ops']):
+        n_sl, templ = 0, {}
         for o in case['ops']:
-            if o[0] == 'model':
-                key = sx_key(o[2])
-                if key not in base:
+            if o[0] in ('store', 'model', 'load'):
+                if o[0] == 'model':
+                    templ[n_sl] = o[2]
+                n_sl += 1
+        for s, p in templ.items():
+            own = []
+            for o in case['ops']:
+                if o[0] == 'sing' and o[1] == s:
                     try:
-                        base[key] = _sing(_build_model('m0', None, o[2]), o[2])
+                        mate = _build_model('m0', None, p)
+                        for c in own:
+                            try:
+                                mate.convert_variable(mate.get_variable_by_name(c[2]), mate.units.get_unit(c[3]),
+                                                      getattr(DataDirectionFlow, c[4]))
+                            except Exception:
+                                pass
+                        base[str(s)] = _sing(mate, p)
                     except Exception as e:
-                        base[key] = 'err:' + type(e).__name__
+                        base[str(s)] = 'err:' + type(e).__name__
+                    break
+                if o[0] == 'convert' and o[1] == s:
+                    own.append(o)
     notes['sing_base'] = base
     try:
         for idx, op in enumerate(case['ops']):
@@ -836,7 +853,7 @@ def oracle(case, obs):
             # start (same equations when the model was not converted in between, same number of repairs otherwise);
             # a second repair finds nothing new — whatever other models did in between (warm or cold caches)
             sing_seen[op[1]] = sing_seen.get(op[1], 0) + 1
-            b = obs['notes']['sing_base'].get(sx_key(params[op[1]]))
+            b = obs['notes']['sing_base'].get(str(op[1]))
             r = step['r']
             if sing_seen[op[1]] == 1:
                 same = _same_sing(r, b)
